@@ -85,6 +85,7 @@ Verdict(r) == [run |-> Hdr(r).run, memberdiv |-> MemberDiv(r),
 -----------------------------------------------------------------------------
 (* conformance *)
 VARIABLES run, i
+VRankRep(rep) == CHOOSE n \in 0..9 : rep = "r" \o ToString(n)
 tvars == <<vars, run, i>>
 
 ASSUME \A r \in 1..NRuns : TLCSet(r, 0)
@@ -98,7 +99,13 @@ TOp == /\ More /\ L.ev = "op" /\ L.res = "ok"
        /\ IF L.op = "pin" THEN LocalPin(L.r, L.c, L.v) ELSE LocalUnpin(L.r, L.c)
        /\ i' = i + 1 /\ UNCHANGED run
 TConnect == /\ More /\ L.ev = "connect" /\ Connect(L.r, L.s) /\ i' = i + 1 /\ UNCHANGED run
-TProc == /\ \E rep \in REPS : \E id \in 1..Len(deltas) : Process(rep, id)
+\* Merging at one replica neither enables nor changes merging at another one (Avail is the union over
+\* the component), so only the first replica that is behind takes delivery steps: all orders per replica
+\* are still explored, the interleavings across replicas are not multiplied.
+Behind == {rep \in REPS : ~Idle(rep)}
+FirstBehind == CHOOSE rep \in Behind : \A o \in Behind : VRankRep(rep) <= VRankRep(o)
+TProc == /\ Behind # {}
+         /\ \E id \in 1..Len(deltas) : Process(FirstBehind, id)
          /\ UNCHANGED <<run, i>>
 TSync == /\ More /\ L.ev = "sync"
          /\ \A n \in DOMAIN L.obs :
